@@ -10,7 +10,9 @@ mod sc_entropy;
 mod courier;
 mod sc_agg;
 mod sc_codec;
+mod sc_compat;
 mod sc_crypt;
+mod sc_ident;
 mod sc_pok;
 mod sc_sign;
 mod sc_thresh;
@@ -59,6 +61,15 @@ fn cmd_check(id: &str, tier: Tier, child: bool) -> i32 {
         return 2;
     };
     seam_gate(&spec);
+    if id == "C18" {
+        // the golden corpus is re-derived from the vendored pinned source; it must match the committed digest
+        let want = std::fs::read_to_string(std::env::var("VERIF_GOLDEN").unwrap_or_else(|_| "/verif/golden/DIGEST.txt".into())).unwrap_or_default();
+        let got = sc_compat::golden_digest(env.pinned);
+        if want != got {
+            eprintln!("harness error: golden corpus re-derived from the vendored pinned source does not match /verif/golden/DIGEST.txt");
+            return 2;
+        }
+    }
     let known = load_known(&known_path());
     let cap = std::env::var("VERIF_WALL_CAP_S").ok().and_then(|s| s.parse().ok()).unwrap_or(if tier == Tier::Quick { 240.0 } else { 3000.0 });
     let start = std::time::Instant::now();
@@ -288,6 +299,25 @@ fn main() {
         Some("replay") if args.len() >= 3 => cmd_replay(&args[2]),
         Some("digest") if args.len() >= 5 => cmd_digest(&args[2], tier_of(&args[3]), args[4].parse().unwrap_or(1)),
         Some("entropy-child") if args.len() >= 7 => sc_entropy::child_main(&args[2..]),
+        Some("golden-write") if args.len() >= 3 => {
+            let dir = &args[2];
+            let _ = std::fs::create_dir_all(dir);
+            let e = env::env();
+            std::fs::write(format!("{}/DIGEST.txt", dir), sc_compat::golden_digest(e.pinned)).unwrap();
+            for g in simtypes::Grp::ALL {
+                let mut out = String::new();
+                for (s, cd, b) in sc_compat::golden_corpus(e.pinned, g, 33) {
+                    out.push_str(&serde_json::json!({"type": s.ty.name(), "specimen": s.label, "codec": cd.name(), "hex": kernel::plan::hex(&b)}).to_string());
+                    out.push('\n');
+                }
+                std::fs::write(format!("{}/corpus-{}-payload33.jsonl", dir, g.name()), out).unwrap();
+            }
+            0
+        }
+        Some("golden-digest") => {
+            print!("{}", sc_compat::golden_digest(env::env().pinned));
+            0
+        }
         Some("selftest") => {
             let (c, e) = kernel::seams::self_test();
             println!("seams clock={} entropy={} profile={}", c, e, env::env().profile);
